@@ -444,6 +444,7 @@ pub fn history_labels(case: &Case, ctx: &mut CaseCtx) {
             Op::SetKey { sel: KeySel::Retired(_), .. } => "hist:set_key_reused",
             Op::SetKey { .. } => "hist:set_key_supplied",
             Op::RemoveKey { .. } => "hist:remove_key",
+            Op::FrozenRemoveKey { .. } => "hist:remove_key_while_primary_read_only",
             Op::Close { .. } => "hist:close",
             Op::Open { .. } => "hist:open",
             Op::Restart => "hist:restart",
